@@ -4,8 +4,9 @@ import ast
 from . import sql as sqlmod
 from .repo import AnalysisError, dotted
 from .interp_exec import short_name
-from .interp import (Outcome, NORMAL, Frame, CFG_CLASSES,
+from .interp import (Outcome, NORMAL, Frame, CFG_CLASSES, State,
                      MAX_DEPTH)
+from .interp_eval import NON_NONE_CTORS
 from .terms import NONE, TRUE, FALSE, const, is_const, strip_wrappers, plain, walk
 
 PURE_METHODS = {"lower", "upper", "strip", "decode", "encode", "split",
@@ -254,9 +255,33 @@ class CallMixin(object):
         vals = res[0][1]
         args = vals[:len(call.args)]
         kwargs = dict(zip([kw.arg for kw in call.keywords], vals[len(call.args):]))
+        pre_facts, pre_pc = dict(state.facts), state.pc
         outs = self.call_function(init, obj, args, kwargs, state, synth, node)
         if len(outs) != 1:
-            raise AnalysisError("__init__ of %s branches" % vcls)
+            # a constructor that only chooses between default values
+            # (`x if x is not None else Default()`): every alternative returns and
+            # has no effect; the attributes they disagree on are unknown
+            ok = all((not isinstance(v, Outcome)) or v.kind == "return" for (_, v) in outs)
+            for (s_i, _) in outs:
+                for e in s_i.events:
+                    if e["k"] == "ext" and (short_name(e["name"]) in self.PURE_EXT or
+                                            e["name"].split(".")[-1] in NON_NONE_CTORS):
+                        continue
+                    if e["k"] not in self.PURE_KINDS and e["k"] != "setattr":
+                        ok = False
+            if not ok or not outs:
+                raise AnalysisError("__init__ of %s branches (%s)" % (vcls, sorted(set(
+                    e["k"] for (s_i, v) in outs for e in s_i.events)) + [
+                    getattr(v, "kind", "value") for (_, v) in outs]))
+            base = outs[0][0]
+            for (s_i, _) in outs[1:]:
+                for key in set(base.heap) | set(s_i.heap):
+                    if key[0] == tag and base.heap.get(key) != s_i.heap.get(key):
+                        base.heap[key] = ("unknown", "ctor-merge:%s" % (key[1],))
+            for slot in State.__slots__:
+                if slot not in ("facts", "pc", "events"):
+                    setattr(state, slot, getattr(base, slot))
+            state.facts, state.pc = pre_facts, pre_pc
         state.events = saved_events
         # containers and other mutable state of a pre-existing object are unknown
         for (cls, attr) in self.container_attrs() | self.mutable_attrs():
@@ -340,6 +365,10 @@ class CallMixin(object):
         k = fn[0]
         if k == "closure":
             fi, defframe = self.closures[fn[1]]
+            if defframe is not None and defframe.fid not in state.envs:
+                alt = getattr(self, "cell_frames", {}).get(defframe.func.qualname)
+                if alt is not None and alt.fid in state.envs:
+                    defframe = alt
             return self.call_function(fi, None, args, kwargs, state, frame, node,
                                       cells=defframe)
         if k == "func":
@@ -382,6 +411,71 @@ class CallMixin(object):
                 kwargs=tuple(sorted(kwargs.items())))
         return [(state, ("call", "<value>", (fn,) + tuple(args), ()))]
 
+    def _is_str_type(self, t):
+        if t == ("builtin", "str"):
+            return True
+        return t[0] == "call" and t[1] == "type" and len(t[2]) == 1 and \
+            is_const(t[2][0]) and isinstance(t[2][0][1], str)
+
+    STR_CALLS = ("str", "fstring", ".format", ".join", ".decode", ".strip", ".lower",
+                 ".upper", ".lstrip", ".rstrip", ".replace", "bytes_to_hexstr")
+
+    def _str_typed(self, t, state, depth=0):
+        """the value is certainly a text string (a formatted / joined / decoded
+        value, a literal, or a choice between such)"""
+        if depth > 6:
+            return False
+        if is_const(t):
+            return isinstance(t[1], str)
+        if t[0] == "binop" and t[1] == "%" and is_const(t[2]) and isinstance(t[2][1], str):
+            return True
+        if t[0] == "binop" and t[1] == "+":
+            return self._str_typed(t[2], state, depth + 1) and \
+                self._str_typed(t[3], state, depth + 1)
+        if t[0] == "call" and isinstance(t[1], str) and (
+                t[1] in self.STR_CALLS or t[1].split(".")[-1] in ("b32encode",)):
+            return True
+        if t[0] == "merge" and t in self.merges:
+            return all(self._str_typed(v, state, depth + 1) for (_, v) in self.merges[t])
+        if t[0] == "call" and t[1] == "choice":
+            return all(self._str_typed(v, state, depth + 1) for v in t[2])
+        if t[0] == "call" and t[1] in ("random.choice", "min", "max") and t[2]:
+            src = strip_wrappers(t[2][0])
+            if src[0] == "coll":
+                adds = self.coll_adds.get(src[1], [])
+                return bool(adds) and all(self._str_typed(r["elem"], state, depth + 1)
+                                          for r in adds)
+        if t[0] == "loopvar" and len(t) >= 3:
+            return self._loopvar_is_str(t[1], t[2])
+        return False
+
+    def _loopvar_is_str(self, loopid, name):
+        """every assignment to `name` inside the loop at loopid is a string
+        formatting expression"""
+        path, line = loopid[0], loopid[1]
+        for mod in self.repo.modules.values():
+            if mod.path != path:
+                continue
+            for n in ast.walk(mod.tree):
+                if isinstance(n, (ast.For, ast.While)) and n.lineno == line:
+                    vals = []
+                    for a in ast.walk(n):
+                        if isinstance(a, ast.Assign) and any(
+                                isinstance(tg, ast.Name) and tg.id == name for tg in a.targets):
+                            vals.append(a.value)
+                        elif isinstance(a, (ast.AugAssign, ast.For)) and \
+                                isinstance(a.target, ast.Name) and a.target.id == name:
+                            return False
+                    return bool(vals) and all(
+                        (isinstance(v, ast.BinOp) and isinstance(v.op, ast.Mod) and
+                         isinstance(v.left, ast.Constant) and isinstance(v.left.value, str)) or
+                        isinstance(v, ast.JoinedStr) or
+                        (isinstance(v, ast.Call) and isinstance(v.func, ast.Name) and
+                         v.func.id == "str") or
+                        (isinstance(v, ast.Constant) and isinstance(v.value, str))
+                        for v in vals)
+        return False
+
     def call_builtin(self, name, args, kwargs, state, frame, node):
         if name in ("list", "tuple", "sorted", "set", "iter") and args and \
                 args[0][0] == "cursor":
@@ -398,6 +492,16 @@ class CallMixin(object):
                 return [(state, ("kwdict", items))]
             return [(state, args[0])]
         if name == "isinstance":
+            if len(args) == 2 and self._is_str_type(args[1]) and \
+                    self._str_typed(args[0], state):
+                return [(state, TRUE)]
+            if len(args) == 2 and args[0] == ("param", "payload") and (
+                    args[1] == ("builtin", "bytes") or (
+                        args[1][0] == "call" and args[1][1] == "type" and
+                        len(args[1][2]) == 1 and is_const(args[1][2][0]) and
+                        isinstance(args[1][2][0][1], bytes))):
+                # the inbound frame Autobahn hands to onMessage is a bytes object
+                return [(state, TRUE)]
             return [(state, ("call", "isinstance", tuple(args), ()))]
         if name == "getattr" and len(args) >= 2:
             # getattr(obj, "prefix" + x) with x known on this path
